@@ -33,7 +33,7 @@ type HelperCfg struct {
 	Gap        int   `json:"gap"`                   // in: slots between emitted records; out: slots between stdin reads
 	StallAt    int   `json:"stall_at,omitempty"`    // after this many records/lines the helper stalls ...
 	StallLen   int   `json:"stall_len,omitempty"`   // ... for this many slots
-	DieAt      int   `json:"die_at,omitempty"`      // after this many records/lines the helper dies (0 = never)
+	DieAt      int   `json:"die_at,omitempty"`      // after this many records/lines the helper dies (0 = never, -1 = as soon as it has been started)
 	ReadBuf    int   `json:"read_buf,omitempty"`    // out helper: size of its read buffer
 	Burst      int   `json:"burst,omitempty"`       // in helper: number of records it emits at most (0 = 400)
 }
@@ -145,6 +145,9 @@ func (catWorld) Gen(seed uint64, tier string) core.Scenario {
 		}
 		if r.Chance(1, 8) {
 			s.InHelper.DieAt = r.Range(1, 8)
+			if r.Chance(1, 8) {
+				s.InHelper.DieAt = -1 // the process ends as soon as it has been started
+			}
 		}
 		if mode == 0 && r.Chance(1, 48) {
 			// a burst of more than a thousand records meets a listener that does not return
@@ -253,6 +256,9 @@ func (catWorld) Gen(seed uint64, tier string) core.Scenario {
 		}
 		if r.Chance(1, 8) {
 			s.OutHelper.DieAt = r.Range(1, 6)
+			if r.Chance(1, 8) {
+				s.OutHelper.DieAt = -1 // the process ends as soon as it has been started
+			}
 		}
 		n := r.PickInt(3, 5, 8, 12)
 		if tier == "thorough" && r.Chance(1, 3) {
@@ -680,7 +686,7 @@ func (w *world) runInHelper(h *helper) {
 			logEvent("helper-stall", int64(h.cfg.StallLen), 0, "in")
 			sleepSlots(h.cfg.StallLen)
 		}
-		if h.cfg.DieAt > 0 && emitted >= h.cfg.DieAt {
+		if (h.cfg.DieAt > 0 && emitted >= h.cfg.DieAt) || h.cfg.DieAt < 0 {
 			logEvent("helper-died", 0, 0, "in")
 			h.setDead()
 			return // a dead helper just stops writing
@@ -866,6 +872,13 @@ func (w *world) runOutProcess(h *helper) {
 		if h.isKilled() {
 			// killed: what it had not read yet is gone with it
 			end("helper-line-lost-at-kill")
+			return
+		}
+		if h.cfg.DieAt < 0 {
+			// the process ends as soon as it has been started (crash fault)
+			logEvent("helper-died", 0, 0, "out")
+			h.setDead()
+			end("helper-line-lost-in-dead-process")
 			return
 		}
 		if h.cfg.Gap > 0 {
